@@ -101,27 +101,56 @@ class Check:
         if not events:
             return {}
         name = name or ("%s_%s" % (self.pid, module))
-        wd = tlc.workdir(name + "_ev")
-        path = os.path.join(wd, "events.json")
-        with open(path, "w") as f:
-            json.dump(events, f, separators=(",", ":"))
         consts = dict(tlc.dev_constants())
         if extra_constants:
             consts.update(extra_constants)
         cfg = {"init": "TraceInit", "next": "TraceNext", "constants": consts,
                "postcondition": "TraceAccepted"}
-        res = tlc.run(module, cfg, name, workers=1, env={"TRACE_FILE": path}, heap="8g")
+        # one TLC run per chunk of the recording (a JSON file of several hundred MB does not
+        # deserialize in the heap); chunks are independent and run side by side
+        chunks, cur, size = [], [], 0
+        for e in events:
+            text = json.dumps(e, separators=(",", ":"))
+            if cur and (size + len(text) > 48_000_000 or len(cur) >= 60000):
+                chunks.append(cur)
+                cur, size = [], 0
+            cur.append(text)
+            size += len(text)
+        chunks.append(cur)
+
+        def one(k):
+            cname = name if len(chunks) == 1 else "%s_part%d" % (name, k)
+            wd = tlc.workdir(cname + "_ev")
+            path = os.path.join(wd, "events.json")
+            with open(path, "w") as f:
+                f.write("[" + ",".join(chunks[k]) + "]")
+            return tlc.run(module, cfg, cname, workers=1, env={"TRACE_FILE": path}, heap="8g")
+
+        if len(chunks) == 1:
+            results = [one(0)]
+        else:
+            from concurrent.futures import ThreadPoolExecutor
+            with ThreadPoolExecutor(max_workers=4) as pool:
+                results = list(pool.map(one, range(len(chunks))))
         verdicts = {}
-        for m in re.finditer(r'<<\s*"V",\s*(-?\d+),\s*"([^"]*)",\s*(TRUE|FALSE)\s*>>', res.out):
-            verdicts[int(m.group(1))] = (m.group(2), m.group(3) == "TRUE")
+        for res in results:
+            got = 0
+            for m in re.finditer(r'<<\s*"V",\s*(-?\d+),\s*"([^"]*)",\s*(TRUE|FALSE)\s*>>', res.out):
+                verdicts[int(m.group(1))] = (m.group(2), m.group(3) == "TRUE")
+                got += 1
+            if res.error and "TraceAccepted" not in res.out and not got:
+                raise MachineryFailure("trace validation %s: TLC failed: %s\n%s" % (
+                    module, res.error, "\n".join(res.out.splitlines()[-30:])))
         missing = [e["id"] for e in events if e["id"] not in verdicts]
-        if missing or res.error and "TraceAccepted" not in res.out and not verdicts:
-            raise MachineryFailure("trace validation %s: no verdict for event %s (TLC: %s)\n%s" % (
-                module, missing[:1], res.error, "\n".join(res.out.splitlines()[-30:])))
+        if missing:
+            raise MachineryFailure("trace validation %s: no verdict for event %s\n%s" % (
+                module, missing[:1], "\n".join(results[-1].out.splitlines()[-30:])))
         if len(verdicts) != len(events):
             raise MachineryFailure("trace validation %s: %d verdicts for %d events" % (
                 module, len(verdicts), len(events)))
-        self.mc_runs.append({"module": module, "events": len(events), **res.summary()})
+        summ = {"states": sum(r.distinct for r in results), "transitions": sum(r.generated for r in results),
+                "depth": max(r.depth for r in results), "wall_s": round(sum(r.wall for r in results), 2)}
+        self.mc_runs.append({"module": module, "events": len(events), "chunks": len(chunks), **summ})
         return verdicts
 
     def absorb(self, events, verdicts, describe):
